@@ -1,10 +1,12 @@
 import ArgMapper.Driver.GraphD
 import ArgMapper.Driver.SigD
+import ArgMapper.Driver.CallD
 open ArgMapper.Driver
 
 /-- model configuration flags passed on the command line (`key=value`) -/
 structure Cfg where
   fixedReverse : Bool := true
+  fl : Flags := {}
 
 def dispatch (cfg : Cfg) (b : Block) : String :=
   match b.kind with
@@ -14,11 +16,20 @@ def dispatch (cfg : Cfg) (b : Block) : String :=
   | "kahn" => (runKahn b).line b.kind b.id "C20"
   | "scc" => (runScc b).line b.kind b.id "C20"
   | "topo" => (runTopo b).line b.kind b.id "C20"
+  | "call" => (runCall cfg.fl b).line b.kind b.id ""
   | "sig" => (runSig b).line b.kind b.id "C14"
   | "vset" => (runVset b).line b.kind b.id "C15"
   | "opts" => (runOpts b).line b.kind b.id "C16"
   | "result" => (runResult b).line b.kind b.id "C17"
   | k => s!"res {k} {b.id} conform=DIVERGE:unknown_kind prop=na"
+
+def mkCfg (args : List String) : Cfg :=
+  let off (k : String) : Bool := args.contains (k ++ "=false")
+  let on (k : String) : Bool := args.contains (k ++ "=true")
+  let v : ArgMapper.Variant := ⟨!(off "r5SkipSame"), !(off "r6NameTest"), !(off "r8SkipSupplied")⟩
+  let fl : Flags := ⟨v, !(off "memoCopy"), !(off "publishAfterUpdate"), !(off "trackReaching"),
+    !(off "takeValuedNamed"), on "skipRecordsInput"⟩
+  ⟨!(off "fixedReverse"), fl⟩
 
 partial def readAll (h : IO.FS.Stream) (acc : Array String) : IO (Array String) := do
   let line ← h.getLine
@@ -26,7 +37,7 @@ partial def readAll (h : IO.FS.Stream) (acc : Array String) : IO (Array String) 
   readAll h (acc.push ((line.dropEndWhile (fun c => c == (Char.ofNat 10) || c == (Char.ofNat 13))).toString))
 
 def main (args : List String) : IO Unit := do
-  let cfg : Cfg := { fixedReverse := !(args.contains "fixedReverse=false") }
+  let cfg := mkCfg args
   let stdin ← IO.getStdin
   let lines ← readAll stdin #[]
   let out ← IO.getStdout
